@@ -20,7 +20,14 @@ import (
 	"golang.org/x/tools/go/ssa/ssautil"
 )
 
-const RepoDir = "/repo"
+// RepoDir is /repo; the self-validation of the thorough tier points it at a
+// scratch copy through VERIF_REPO (never set by a manifest command).
+var RepoDir = func() string {
+	if d := os.Getenv("VERIF_REPO"); d != "" {
+		return d
+	}
+	return "/repo"
+}()
 const ModPath = "github.com/sarchlab/mgpusim/v4"
 
 // Finding is one reported construct. Key() never contains a line number.
